@@ -72,6 +72,7 @@ package mqtt
 // verif:def maxID(cl *Client) uint32 = cl.ops.options.Capabilities.maximumPacketID
 // verif:func mqtt.Client.NextPacketID
 //@ requires C32-lock-not-held-by-this-goroutine: cl.RWMutex.lheld == 0
+//@ requires C32-in-flight-table-lock-not-held-by-this-goroutine: cl.State.Inflight.RWMutex.lheld == 0
 //@ ensures C32-lock-released-on-return: cl.RWMutex.lheld == 0
 //@ requires cl.ops != nil && cl.ops.options != nil && cl.ops.options.Capabilities != nil && cl.State.Inflight != nil
 //@ requires maxID(cl) <= 65535 && cl.State.packetID <= maxID(cl)
@@ -1011,7 +1012,7 @@ package mqtt
 // the index operations RetainMessage uses: they build / prune nodes and never touch the retained store
 // verif:func mqtt.TopicsIndex.set trusted
 //@ modifies allentries("string", "*particle")
-//@ ensures r0 != nil && r0 == pathNode(topic, d) && r0.parent != nil && r0.subscriptions != nil && r0.subscriptions.internal != nil && r0.shared != nil && r0.inlineSubscriptions != nil && r0.inlineSubscriptions.internal != nil
+//@ ensures r0 != nil && r0 != x.root && r0 == pathNode(topic, d) && r0.parent != nil && r0.subscriptions != nil && r0.subscriptions.internal != nil && r0.shared != nil && r0.inlineSubscriptions != nil && r0.inlineSubscriptions.internal != nil
 //@ ensures fresh(r0) || old(allocated(r0))
 //@ ensures fresh(r0) ==> emptyNode(r0) && (forall c string :: !has(r0.subscriptions.internal, c)) && (forall k int :: !has(r0.inlineSubscriptions.internal, k))
 //@ ensures old(wfTrie() && nodesValid()) ==> wfTrie() && nodesValid()
@@ -1303,3 +1304,5 @@ package mqtt
 // verif:func mqtt.particles.add
 //@ requires C32-lock-not-held-by-this-goroutine: p.RWMutex.lheld == 0
 //@ ensures C32-lock-released-on-return: p.RWMutex.lheld == 0
+// verif:func mqtt.NewInflights trusted
+//@ ensures r0 != nil && fresh(r0)
